@@ -54,9 +54,10 @@ type knownEntry struct {
 }
 
 var (
-	verifDir string
-	repoDir  string
-	workDir  string
+	verifDir    string
+	repoDir     string
+	workDir     string
+	scratchRepo bool // VERIF_REPO points at a scratch copy (mutation self-test)
 )
 
 func fatalf(code int, format string, a ...interface{}) {
@@ -134,7 +135,7 @@ func runShard(bin string, spec *propSpec, ph phase, tier string, seed int64, sha
 	cmd := exec.Command(bin, args...)
 	if !ph.Race {
 		// address-space cap (the race detector needs a huge shadow mapping, so not there)
-		cmd = exec.Command("bash", append([]string{"-c", "ulimit -v 12000000; exec \"$0\" \"$@\"", bin}, args...)...)
+		cmd = exec.Command("bash", append([]string{"-c", "ulimit -v 6000000; exec \"$0\" \"$@\"", bin}, args...)...)
 	}
 	cmd.Dir = workDir
 	ef, _ := os.Create(errFile)
@@ -242,6 +243,9 @@ func loadKnown() []knownEntry {
 
 func writeReplay(prop string, v Violation, tier string, seed int64, phase string) string {
 	dir := filepath.Join(verifDir, "replays")
+	if scratchRepo {
+		dir = filepath.Join(verifDir, ".work", "scratch-replays")
+	}
 	os.MkdirAll(dir, 0o755)
 	h := sha1.Sum([]byte(v.Sig + fmt.Sprint(v.Idx, seed, tier)))
 	p := filepath.Join(dir, fmt.Sprintf("%s-%x.json", prop, h[:5]))
@@ -269,6 +273,7 @@ func main() {
 	if repoDir == "" {
 		repoDir = "/repo"
 	}
+	scratchRepo = repoDir != "/repo"
 	seed := int64(1)
 	if s := os.Getenv("VERIF_SEED"); s != "" {
 		if v, err := strconv.ParseInt(s, 10, 64); err == nil {
@@ -534,9 +539,14 @@ func main() {
 		"wall_s":      wall,
 		"violations":  len(uniq),
 	}
-	os.MkdirAll(filepath.Join(verifDir, "evidence"), 0o755)
+	evDir := filepath.Join(verifDir, "evidence")
+	if scratchRepo {
+		// a run against a scratch copy (mutation self-test) must not overwrite the evidence of /repo
+		evDir = filepath.Join(verifDir, ".work", "scratch-evidence")
+	}
+	os.MkdirAll(evDir, 0o755)
 	eb, _ := json.MarshalIndent(ev, "", " ")
-	os.WriteFile(filepath.Join(verifDir, "evidence", id+".json"), eb, 0o644)
+	os.WriteFile(filepath.Join(evDir, id+".json"), eb, 0o644)
 
 	// ---- report
 	fmt.Printf("%s %s seed=%d: %d cases, %d distinct non-trivial, %.1fs\n", id, tier, seed, merged.Evaluations, distinct, wall)
@@ -619,18 +629,41 @@ func splitRaceReports(s string) []string {
 	return out
 }
 
-// raceKey dedupes a race report by the functions on top of its two stacks, line numbers stripped.
+// raceKey dedupes a race report by the first gmars function (or, failing that, the top
+// function) of each of its two access stacks, line numbers stripped.
 func raceKey(blk string) string {
 	var fns []string
 	lines := strings.Split(blk, "\n")
 	for i, l := range lines {
 		t := strings.TrimSpace(l)
-		if (strings.HasPrefix(t, "Write at") || strings.HasPrefix(t, "Read at") || strings.HasPrefix(t, "Previous write at") || strings.HasPrefix(t, "Previous read at")) && i+1 < len(lines) {
-			fn := strings.TrimSpace(lines[i+1])
-			if j := strings.Index(fn, "("); j > 0 {
+		if !(strings.HasPrefix(t, "Write at") || strings.HasPrefix(t, "Read at") || strings.HasPrefix(t, "Previous write at") || strings.HasPrefix(t, "Previous read at")) {
+			continue
+		}
+		top, gm := "", ""
+		for k := i + 1; k < len(lines); k++ {
+			fn := strings.TrimSpace(lines[k])
+			if fn == "" {
+				break
+			}
+			if strings.HasPrefix(fn, "/") || strings.HasPrefix(fn, "Goroutine") {
+				continue // file:line rows
+			}
+			if j := strings.Index(fn, "("); j > 0 && !strings.HasPrefix(fn, "github.com/bobertlo/gmars.(") {
+				fn = fn[:j]
+			} else if j := strings.LastIndex(fn, "("); j > 0 {
 				fn = fn[:j]
 			}
-			fns = append(fns, fn)
+			if top == "" {
+				top = fn
+			}
+			if gm == "" && strings.Contains(fn, "bobertlo/gmars") {
+				gm = strings.TrimPrefix(fn, "github.com/bobertlo/gmars.")
+			}
+		}
+		if gm != "" {
+			fns = append(fns, gm)
+		} else {
+			fns = append(fns, top)
 		}
 	}
 	sort.Strings(fns)
